@@ -44,6 +44,9 @@ enum Ev {
     DelayTimer,
     TxTs { j: usize, t3: u128 },
     DelayResp { j: usize, t4: Ts, c: i64, from_parent: bool, for_us: bool },
+    /// the other master starts announcing better attributes and the BMCA selects it: from here
+    /// on its exchanges are the parent's, and nothing received or sent before may be used
+    ParentSwitch,
 }
 
 impl Check for C09 {
@@ -122,11 +125,22 @@ impl Check for C09 {
             }
         }
         // decoy exchange from a non-parent with an id equal to one of the parent's
-        if ch.chance(S_WORK, 1, 2) {
-            let x = SyncX { seq: s0.wrapping_add(ch.choose(S_WORK, n_sync as u64) as u16), two_step, t1: Ts { secs: base_secs + 77, nanos: 5 }, c_sync: 0, c_fu: 0, from_parent: false };
+        let switch = ch.chance(S_WORK, 1, 4);
+        let n_decoy = if switch { ch.range(S_WORK, 1, 2) } else { ch.choose(S_WORK, 2) };
+        // (one sender never uses a sequence id twice: consecutive ids, the first equal to one of the parent's)
+        let decoy_s0 = s0.wrapping_add(ch.choose(S_WORK, n_sync as u64) as u16);
+        for d in 0..n_decoy {
+            let x = SyncX {
+                seq: decoy_s0.wrapping_add(d as u16),
+                two_step,
+                t1: Ts { secs: base_secs + 77 + d, nanos: 5 },
+                c_sync: if switch { pick_corr(ch) } else { 0 },
+                c_fu: 0,
+                from_parent: false,
+            };
             syncs.push(x);
             let xi = syncs.len() - 1;
-            evs.push(Ev::Sync { x: xi, t2: (base_secs as u128 + 78) * SEC });
+            evs.push(Ev::Sync { x: xi, t2: (base_secs as u128 + 78 + d as u128) * SEC });
             if two_step {
                 evs.push(Ev::FollowUp { x: xi });
             }
@@ -203,29 +217,39 @@ impl Check for C09 {
             }
         }
 
+        if switch {
+            let at = ch.choose(S_WORK, order.len() as u64 + 1) as usize;
+            order.insert(at, Ev::ParentSwitch);
+        }
+
         // ---- execute and check
         #[derive(Clone, Debug)]
         struct DReq {
             seq: u16,
             ctx: u64,
-            t3: Option<u128>,
-            resp: Vec<(Ts, i64)>,
+            epoch: u32,
+            t3: Option<(u128, u32)>,
+            /// (receive timestamp, correction, sender is the original parent, epoch of delivery)
+            resp: Vec<(Ts, i64, bool, u32)>,
         }
+        // epoch = number of parent changes so far
+        let mut epoch = 0u32;
+        let mut parent_is_original = true;
         let mut reqs: Vec<DReq> = Vec::new();
-        let scan_reqs = |w: &World, reqs: &mut Vec<DReq>| {
+        let scan_reqs = |w: &World, reqs: &mut Vec<DReq>, epoch: u32| {
             for e in &w.emitted {
                 if let Ok(f) = Frame::decode(&e.bytes) {
                     if f.hdr.msg_type == MsgType::DelayReq && !reqs.iter().any(|r| r.seq == f.hdr.seq) {
                         // contexts are numbered in emission order
                         let ctx = w.nodes[0].ports[0].pending_ctx.iter().map(|(i, _)| *i).max().unwrap_or(0);
-                        reqs.push(DReq { seq: f.hdr.seq, ctx, t3: None, resp: Vec::new() });
+                        reqs.push(DReq { seq: f.hdr.seq, ctx, epoch, t3: None, resp: Vec::new() });
                     }
                 }
             }
         };
-        scan_reqs(&w, &mut reqs);
-        let mut sync_delivered: Vec<(usize, u128)> = Vec::new(); // (exchange, t2)
-        let mut fu_delivered: Vec<usize> = Vec::new();
+        scan_reqs(&w, &mut reqs, epoch);
+        let mut sync_delivered: Vec<(usize, u128, u32)> = Vec::new(); // (exchange, t2, epoch)
+        let mut fu_delivered: Vec<(usize, u32)> = Vec::new();
         let mut last_raw_sync: Option<i128> = None;
         let mut n_meas_before = 0usize;
         let mut any_measurement = false;
@@ -244,9 +268,7 @@ impl Check for C09 {
                         f.hdr.flags |= flag::TWO_STEP;
                     }
                     script.push(format!("Sync#{}{} t2={}", sx.seq, if sx.from_parent { "" } else { "(decoy)" }, t2));
-                    if sx.from_parent {
-                        sync_delivered.push((*x, *t2));
-                    }
+                    sync_delivered.push((*x, *t2, epoch));
                     w.host_call(0, 0, HostCall::RxEvent(Rc::new(f.encode()), *t2), ch);
                 }
                 Ev::FollowUp { x } => {
@@ -255,21 +277,20 @@ impl Check for C09 {
                     let mut f = Frame::new(MsgType::FollowUp, src, sx.seq, Body::FollowUp { precise_origin: sx.t1 });
                     f.hdr.correction = sx.c_fu;
                     script.push(format!("FollowUp#{}{}", sx.seq, if sx.from_parent { "" } else { "(decoy)" }));
-                    if sx.from_parent {
-                        fu_delivered.push(*x);
-                    }
+                    fu_delivered.push((*x, epoch));
                     w.host_call(0, 0, HostCall::RxGeneral(Rc::new(f.encode())), ch);
                 }
                 Ev::DelayTimer => {
                     script.push("delay timer".into());
                     w.host_call(0, 0, HostCall::Timer(T_DELAY), ch);
-                    scan_reqs(&w, &mut reqs);
+                    scan_reqs(&w, &mut reqs, epoch);
                 }
+                Ev::ParentSwitch => {}
                 Ev::TxTs { j, t3 } => {
                     if let Some(r) = reqs.get_mut(*j) {
                         if r.t3.is_none() {
                             script.push(format!("TX timestamp of Delay_Req#{} t3={}", r.seq, t3));
-                            r.t3 = Some(*t3);
+                            r.t3 = Some((*t3, epoch));
                             let ctx = r.ctx;
                             w.host_call(0, 0, HostCall::TxTimestamp(ctx, *t3), ch);
                         }
@@ -282,12 +303,29 @@ impl Check for C09 {
                         let mut f = Frame::new(MsgType::DelayResp, src, r.seq, Body::DelayResp { receive: *t4, requesting: req });
                         f.hdr.correction = *c;
                         script.push(format!("Delay_Resp#{}{}{}", r.seq, if *from_parent { "" } else { "(decoy sender)" }, if *for_us { "" } else { "(other requester)" }));
-                        if *from_parent && *for_us {
-                            r.resp.push((*t4, *c));
+                        if *for_us {
+                            r.resp.push((*t4, *c, *from_parent, epoch));
                         }
                         w.host_call(0, 0, HostCall::RxGeneral(Rc::new(f.encode())), ch);
                     }
                 }
+            }
+            if let Ev::ParentSwitch = e {
+                script.push("other master announces better attributes; BMCA selects it".into());
+                let gm2 = GmData::simple(DECOY, 5);
+                for k in 0..2u16 {
+                    let f = announce_frame(decoy, 300 + k, &gm2, 0, 0, 0);
+                    w.host_call(0, 0, HostCall::RxGeneral(Rc::new(f.encode())), ch);
+                    w.run_bmca(0, ch);
+                }
+                let pd = w.nodes[0].inst.parent_ds();
+                if w.nodes[0].ports[0].state() != PState::Slave || pd.parent_port_identity.clock_identity.0 != DECOY {
+                    out_v.push(("C09.setup_failed".into(), "switch".into(), "port did not become slave of the second master".into()));
+                }
+                epoch += 1;
+                parent_is_original = false;
+                last_raw_sync = None;
+                w.out.probe("parent_changed_with_exchanges_in_flight");
             }
             // check new measurements
             let entries = rec.borrow().entries.clone();
@@ -297,9 +335,13 @@ impl Check for C09 {
                 let mut explained = false;
                 if let Some(rs) = m.raw_sync_offset {
                     let rs = duration_to_units(rs);
-                    for (x, t2) in &sync_delivered {
+                    for (x, t2, ep) in &sync_delivered {
                         let sx = &syncs[*x];
-                        if sx.two_step && !fu_delivered.contains(x) {
+                        // only exchanges of the current parent, received entirely since it was selected
+                        if sx.from_parent != parent_is_original || *ep != epoch {
+                            continue;
+                        }
+                        if sx.two_step && !fu_delivered.contains(&(*x, epoch)) {
                             continue;
                         }
                         let recv = *t2 as i128 - corr_to_units(sx.c_sync);
@@ -339,8 +381,14 @@ impl Check for C09 {
                 } else if let Some(rd) = m.raw_delay_offset {
                     let rd = duration_to_units(rd);
                     for r in &reqs {
-                        let Some(t3) = r.t3 else { continue };
-                        for (t4, c) in &r.resp {
+                        let Some((t3, t3_epoch)) = r.t3 else { continue };
+                        if r.epoch != epoch || t3_epoch != epoch {
+                            continue;
+                        }
+                        for (t4, c, from_original, ep) in &r.resp {
+                            if *from_original != parent_is_original || *ep != epoch {
+                                continue;
+                            }
                             let recv = ts_to_units(*t4) - corr_to_units(*c);
                             let want = t3 as i128 - recv - asym;
                             if (want - rd).abs() <= TOL && (t3 as i128 - ev_t as i128).abs() <= TOL {
